@@ -78,7 +78,11 @@ def parameter_bounds(ctx, res: Result, ci: ClassInfo) -> None:
             if fi.name == "__init__" and reqs == "value":
                 # bounds do not exist yet: they must be installed afterwards through the checked setters
                 later = [x for x in walk_no_nested(fi.node) if isinstance(x, ast.Attribute) and isinstance(x.ctx, ast.Store) and isinstance(x.value, ast.Name) and x.value.id == "self" and x.attr in ("min_bound", "max_bound")]
-                raw = [x for x in walk_no_nested(fi.node) if isinstance(x, ast.Attribute) and isinstance(x.ctx, ast.Store) and isinstance(x.value, ast.Name) and x.value.id == "self" and mangle(cn, x.attr) in (fmin, fmax)]
+                par_i = {c_: n_ for n_ in ast.walk(fi.node) for c_ in ast.iter_child_nodes(n_)}
+                def _none_store(x):
+                    a_ = par_i.get(x)
+                    return isinstance(a_, (ast.Assign, ast.AnnAssign)) and isinstance(a_.value, ast.Constant) and a_.value.value is None
+                raw = [x for x in walk_no_nested(fi.node) if isinstance(x, ast.Attribute) and isinstance(x.ctx, ast.Store) and isinstance(x.value, ast.Name) and x.value.id == "self" and mangle(cn, x.attr) in (fmin, fmax) and not _none_store(x)]
                 res.add(bool(later) and not raw, "E-bounded-write", inst, fi.site(st), fi.qualname,
                         "constructor installs bounds only through the checked setters after the value", "constructor writes a bound field directly (unchecked against the value)", construct=src(st))
                 continue
@@ -89,6 +93,8 @@ def parameter_bounds(ctx, res: Result, ci: ClassInfo) -> None:
                 required = [frozenset({Lit("is", E, "None"), canon(">=", VAL, E)})]
             else:
                 required = [frozenset({Lit("is", E, "None"), canon("<=", VAL, E)})]
+            # a literal that is true by itself (`None is None` when the constant None is written) discharges its clause
+            required = [r for r in required if not any(l.op == "is" and l.a == l.b == "None" for l in r)]
             missing = [r for r in required if not clause_implied(r, facts)]
             if not missing:
                 res.ok("E-bounded-write", inst, fi.site(st), fi.qualname, "write dominated by: " + " and ".join("(" + " or ".join(sorted(map(str, r))) + ")" for r in required))
